@@ -306,6 +306,7 @@ impl ProbeCore {
                 (k, Some(k))
             }
             Hint::Inexact => (0, Some(1_000_000)),
+            Hint::MaxNone => (usize::MAX, None),
             Hint::Inverted => {
                 let k = self
                     .script
